@@ -198,7 +198,23 @@ fn import_logged(der: &[u8], via: &str, case: &str, args: Value, key: &LiveKey, 
 
 /// `orig`: the parameters the certificate was generated from, where rcgen made it (compared with the library's own `==`)
 fn import_logged_orig(der: &[u8], via: &str, case: &str, args: Value, key: &LiveKey, orig: Option<&CertificateParams>, out: &mut Out) -> Option<CertificateParams> {
+	// "pem-bundle": the certificate followed by another one in the same text (a chain file); the first block is the one read
+	let bundle_tail = if via == "pem-bundle" {
+		let mut t = CertificateParams::default();
+		t.distinguished_name = DistinguishedName::new();
+		t.distinguished_name.push(DnType::CommonName, "second certificate of the bundle");
+		t.is_ca = IsCa::Ca(BasicConstraints::Unconstrained);
+		t.serial_number = Some(SerialNumber::from_slice(&[0x7a, 0x11]));
+		t.key_identifier_method = KeyIdMethod::PreSpecified(vec![0xbb; 20]);
+		match guarded(|| t.self_signed(&key.kp)) {
+			Outcome::Ok(c) => format!("{}\n{}", pem_of("CERTIFICATE", der), pem_of("CERTIFICATE", c.der())),
+			_ => pem_of("CERTIFICATE", der),
+		}
+	} else {
+		String::new()
+	};
 	let r = guarded(|| match via {
+		"pem-bundle" => CertificateParams::from_ca_cert_pem(&bundle_tail),
 		"pem" => CertificateParams::from_ca_cert_pem(&pem_of("CERTIFICATE", der)),
 		_ => CertificateParams::from_ca_cert_der(&pki_types::CertificateDer::from(der.to_vec())),
 	});
@@ -344,7 +360,7 @@ pub fn run(cert_cases: &str, import_cases: &str, out_path: &str, tier: &str) {
 			None => continue,
 		};
 		let facts = ca_facts(cert.der()).unwrap_or(json!({}));
-		for v in ["der", "pem"] {
+		for v in ["der", "pem", "pem-bundle"] {
 			let args = json!({"origin": "rcgen", "via": v, "src": p, "key": key_args(key), "cert": facts});
 			import_logged_orig(cert.der(), v, &case_id, args, key, Some(cert.params()), &mut out);
 		}
@@ -372,7 +388,7 @@ pub fn run(cert_cases: &str, import_cases: &str, out_path: &str, tier: &str) {
 						None => continue,
 					};
 					let facts = ca_facts(cert.der()).unwrap_or(json!({}));
-					for v in ["der", "pem"] {
+					for v in ["der", "pem", "pem-bundle"] {
 						let args = json!({"origin": "rcgen", "via": v, "src": p, "key": key_args(key), "cert": facts});
 						import_logged_orig(cert.der(), v, &case_id, args, key, Some(cert.params()), &mut out);
 					}
@@ -429,7 +445,7 @@ pub fn run(cert_cases: &str, import_cases: &str, out_path: &str, tier: &str) {
 				},
 			};
 			let facts = ca_facts(&der).unwrap_or(json!({}));
-			for v in ["der", "pem"] {
+			for v in ["der", "pem", "pem-bundle"] {
 				let args = json!({"origin": "openssl", "via": v, "src": d, "key": key_args(ca_key), "cert": facts});
 				if let Some(p) = import_logged(&der, v, &case_id, args, ca_key, &mut out) {
 					chain_logged(p, &der, &format!("openssl-imported-{}", v), ca_key, leaf_key, &leaf_kid, &case_id, &mut out);
@@ -463,7 +479,7 @@ pub fn run(cert_cases: &str, import_cases: &str, out_path: &str, tier: &str) {
 					if let Outcome::Ok(mid) = guarded(|| mparams.signed_by(&leaf_key.kp, &cert, &ca_key.kp)) {
 						out.event("Cert", &case_id, margs, "Ok", "", cert_obs(&mid, &before, ca_key));
 						let facts = ca_facts(mid.der()).unwrap_or(json!({}));
-						for v in ["der", "pem"] {
+						for v in ["der", "pem", "pem-bundle"] {
 							let args = json!({"origin": "rcgen", "via": v, "src": mp, "key": key_args(leaf_key), "cert": facts});
 							if let Some(p) = import_logged(mid.der(), v, &case_id, args, leaf_key, &mut out) {
 								chain_logged(p, mid.der(), &format!("rcgen-intermediate-imported-{}", v), leaf_key, ca_key, &leaf_kid, &case_id, &mut out);
@@ -473,7 +489,7 @@ pub fn run(cert_cases: &str, import_cases: &str, out_path: &str, tier: &str) {
 				}
 			}
 			let facts = ca_facts(cert.der()).unwrap_or(json!({}));
-			for v in ["der", "pem"] {
+			for v in ["der", "pem", "pem-bundle"] {
 				let args = json!({"origin": "rcgen", "via": v, "src": ip, "key": key_args(ca_key), "cert": facts});
 				if let Some(p) = import_logged(cert.der(), v, &case_id, args, ca_key, &mut out) {
 					chain_logged(p, cert.der(), &format!("rcgen-imported-{}", v), ca_key, leaf_key, &leaf_kid, &case_id, &mut out);
